@@ -593,6 +593,8 @@ func checkC11(rc *Run) error {
 		{"{1}\n", []string{"-p=json", "."}}, {"{\"a\":1,true:2}\n", []string{"-p=json", "."}}, {"{null:1}\n", []string{"-p=json", "."}}, {"[{1:2}]\n", []string{"-p=json", "-o=yaml", "."}},
 		{"!!map [1]\n", []string{"-o=xml", "."}}, {"[!!map [1]]\n", []string{"pivot"}}, {"!!seq {a: 1}\n", []string{"-o=xml", "."}}, {"[1, 2, 3]\n", []string{"-o=xml", ". tag = \"!!map\""}},
 		{"!!map [1]\n", []string{"-o=json", "."}}, {"!!map [1]\n", []string{"-o=props", "."}}, {"!!seq {a: 1}\n", []string{"-o=csv", "."}}, {"!!map [1]\n", []string{"-o=lua", "."}},
+		{"a: 1\n", []string{".a alias = \"nope\" | .a.b"}}, {"a: 1\n", []string{"-o=props", ".a alias = \"nope\""}}, {"a: 1\n", []string{"-o=shell", ".a alias = \"nope\""}},
+		{"a: &m {b: 1}\nc: 2\n", []string{"-o=json", ".c alias = \"m\" | .c.b"}},
 		{"a: 1\n", []string{"-I=-1", "."}}, {"a: 1\n", []string{"-I=-1", "-o=json", "."}}, {"a: {b: 1}\n", []string{"-I=-5", "-o=xml", "."}},
 	} {
 		p := runProc(dir, []byte(xc.stdin), xc.args...)
